@@ -7,6 +7,10 @@ Decided structural clauses:
     written back to the same pole positions; both solve branches solve that system
  D3 branch consistency: Q, R are defined exactly on the paths that use them (guard-correlated definite assignment)
  D4 surplus storage key: integrate stores and interpolate / interpolate_grid / get_surplusses look up under the same key term
+ D5 the B-spline derivative recursions are the formal derivatives of the value recursion (product rule, checked as a polynomial
+    identity with the recursive calls as atoms): first derivative = d/dx value, second derivative = d/dx first derivative
+ D6 surpluses are per-grid state: no class-level mutable `surplus_values` shared by all grid objects; every concrete basis grid
+    creates its own dictionary in its constructor
 Not decided: unique solvability, reproduction of nodal values / polynomials, derivative and integral agreement (numerical)."""
 import ast
 
@@ -193,6 +197,10 @@ def run(prog, ctx):
               "%s may be read on a path on which it was never assigned: the branch that factorises the matrix and the branch that uses the "
               "factors are no longer governed by the same condition" % sorted(bad))
 
+    # ------------------------------------------------------------------ D5 / D6
+    check_bspline_derivatives(prog, ctx)
+    check_surplus_ownership(prog, ctx)
+
     # ------------------------------------------------------------------ D4
     for cq, methods in (("Grid.BasisGrid", ("integrate", "interpolate", "interpolate_grid")),
                         ("Grid.GlobalBasisGrid", ("integrate", "interpolate", "interpolate_grid", "get_surplusses"))):
@@ -238,3 +246,107 @@ def _abstract_params(fi, k):
             return tuple(rec(x) for x in t)
         return t
     return rec(k)
+
+
+def _accumulated(fi, name="result"):
+    """sum of `name = e0; name += e1; ...` (the general branch of the recursion) as a polynomial over value-term atoms"""
+    from ..absint import poly_of_term, Poly
+    tm = Terms(fi.node)
+    total = None
+    n_assign = 0
+    for st in walk_local(fi.node):
+        if isinstance(st, ast.Assign) and isinstance(st.targets[0], ast.Name) and st.targets[0].id == name:
+            n_assign += 1
+            total = poly_of_term(tm.term(st.value))
+        elif isinstance(st, ast.AugAssign) and isinstance(st.target, ast.Name) and st.target.id == name:
+            if total is None:
+                return None
+            if isinstance(st.op, ast.Add):
+                total = total + poly_of_term(tm.term(st.value))
+            elif isinstance(st.op, ast.Sub):
+                total = total - poly_of_term(tm.term(st.value))
+            else:
+                return None
+    if n_assign != 1:
+        return None
+    return total
+
+
+def _derive(p, x_atom, call_map):
+    """formal d/dx of a Poly: x -> 1, call atoms f(x, ..) -> f'(x, ..) via call_map, atoms without x are constants"""
+    from ..absint import Poly
+    from fractions import Fraction
+    out = Poly()
+    for mono, coef in p.terms.items():
+        for i, (atom, power) in enumerate(mono):
+            rest = list(mono[:i]) + list(mono[i + 1:])
+            if atom == x_atom:
+                d_atom = None
+                factor = Poly({tuple(sorted(rest + ([(atom, power - 1)] if power > 1 else []), key=repr)): coef * power})
+                out = out + factor
+            else:
+                has_x = any(y == x_atom for y in subterms(atom)) if isinstance(atom, tuple) else False
+                if not has_x:
+                    continue
+                if atom[0] == "call" and atom[1] in call_map and power == 1:
+                    d = ("call", call_map[atom[1]], atom[2], atom[3])
+                    out = out + Poly({tuple(sorted(rest + [(d, 1)], key=repr)): coef})
+                else:
+                    return None       # cannot differentiate this atom
+    return out
+
+
+def check_bspline_derivatives(prog, ctx):
+    bs = prog.cls(BF + "BSpline")
+    ev, d1, d2 = bs.methods["recursive_eval"], bs.methods["get_first_derivative_recursive"], bs.methods["get_second_derivative_recursive"]
+    ctx.touch(ev, d1, d2)
+    x = ("n", ev.params[1])
+    f_ev = ("a", ("n", "self"), "recursive_eval")
+    f_d1 = ("a", ("n", "self"), "get_first_derivative_recursive")
+    f_d2 = ("a", ("n", "self"), "get_second_derivative_recursive")
+    E, D1, D2 = _accumulated(ev), _accumulated(d1), _accumulated(d2)
+    if E is None or D1 is None or D2 is None:
+        raise AnalysisError("C10.D5: the B-spline recursions no longer accumulate their general branch in `result`")
+    for (name, have, base, cmap, fi) in (("first", D1, E, {f_ev: f_d1}, d1), ("second", D2, D1, {f_ev: f_d1, f_d1: f_d2}, d2)):
+        want = _derive(base, x, cmap)
+        ok = want is not None and have == want
+        ctx.check(ok, "C10.D5", R.key_of(fi, "is-formal-derivative"), fi.loc(),
+                  "the %s-derivative recursion equals d/dx of the %s recursion (product rule, identically)" % (name, "value" if name == "first" else "first-derivative"),
+                  "the %s-derivative recursion of BSpline is not the formal derivative of the recursion it differentiates "
+                  "(difference: %r)" % (name, (have - want) if want is not None else "cannot differentiate"))
+    # base cases: degree 0 has zero derivative, degree <= 1 zero second derivative
+    for fi, bound in ((d1, "p == 0"), (d2, "p <= 1")):
+        tm = Terms(fi.node, max_depth=0)
+        ok = False
+        for r in R.return_paths(fi)[0]:
+            g = [show(gg) for (gg, gn) in R.dominating_guards(fi, r, tm) if gn.kind == "test"]
+            if tm.term(r.ast.value) in (("c", "0.0"), ("c", "0")) and g:
+                ok = True
+        ctx.check(ok, "C10.D5", R.key_of(fi, "base-case"), fi.loc(), "the lowest degrees return 0", "%s lost its base case returning 0" % fi.name)
+
+
+def check_surplus_ownership(prog, ctx):
+    n = 0
+    for base_q in ("Grid.BasisGrid", "Grid.GlobalBasisGrid"):
+        base = prog.cls(base_q)
+        for ci in prog.all_subclasses(base):
+            shared = [c for c in ci.mro if "surplus_values" in c.class_attrs and isinstance(c.class_attrs["surplus_values"], (ast.Dict, ast.List, ast.Set, ast.Call))]
+            for c in shared:
+                n += 1
+                ctx.violation("C10.D6", "%s::class-level-surplus_values" % c.qual, c.module.path.split("/")[-1] + ":%d" % c.node.lineno,
+                              "%s defines `surplus_values` as a class attribute: all grid objects share one dictionary keyed by level vector, "
+                              "so one grid interpolates with the surpluses another grid stored" % c.qual)
+            # concrete classes (those that are instantiated with their own __init__) must create the dictionary per instance
+            init = prog.lookup_method(ci, "__init__")
+            if init is None or ci is base:
+                continue
+            uses = any(R.attr_reads(f.node, f.self_name or "self").get("surplus_values") for c in ci.mro for f in c.methods.values())
+            if not uses:
+                continue
+            creates = any(s.kind == "plain" for c in ci.mro if "__init__" in c.methods for s in R.self_stores(c.methods["__init__"], "surplus_values"))
+            # follow one level: __init__ of ci calls super().__init__ or a sibling initialiser that creates it
+            n += 1
+            ctx.check(creates, "C10.D6", "%s::creates-own-surplus-dict" % ci.qual, init.loc(),
+                      "each %s object creates its own surplus dictionary" % ci.name,
+                      "no constructor in the hierarchy of %s assigns self.surplus_values: the dictionary is shared or missing" % ci.qual)
+    ctx.floor("C10.D6", n, 2, "basis grid classes using surplus_values")
